@@ -24,6 +24,7 @@ RULE = ("seeded histories of 1-8 steps over harvest_combos (incl. Ellipsis), har
         "h5netcdf/joblib; data names with and without extension; a brand-new Harvester (new session) at random steps; "
         "a third of the h5netcdf cases construct every Harvester with chunks= (dataset kept as dask arrays over the file) and save several times in a row from one session; memory-only harvesters with sync=False; runs of un-synced harvests ended by a step that saves the memory; near-equal conflicting values; results that are whole numbers at first and fractional later, labels that are whole numbers / one character at first and fractional / longer later; every post-step state is one judged observation; a quarter of the histories under xarray's announced combine defaults, a quarter with the file named by a pathlib.Path, half with every file keeping one modification time throughout; distinct by history "
         "prefix; non-trivial from the second step on")
+RULE += '; after half of the add_ds steps the caller overwrites, in place, the arrays of the dataset it had handed in, and memory and disk are judged again'
 ASSUMPTIONS = [
     "attributes of merged datasets are not judged (xarray's merge decides them); values, labels and variables are",
     "sync=False steps are generated for memory-only harvesters, before the file exists, and as runs of one session (possibly a brand-new one) that end in a synced harvest or in drop_sel / expand_dims / save_full_ds(); while a run is open no OTHER session acts (what is only in one session's memory cannot be on disk yet, so 'memory equals disk' is judged when the run has ended)",
